@@ -33,3 +33,22 @@ theorem C02_rename (S : Scheme) (hS : S.Valid) (D : Dataset) (f : Elem → Elem)
   simp only [hf.eq_iff]
 
 end Corankco
+
+namespace Corankco
+open Model Spec
+
+/-- … hence the whole table — the only view of the dataset that Copeland, KwikSort's graph, ParCons, ParFront and the
+    exact models take — is the same table: every id-level result of those algorithms is unchanged by the renaming. -/
+theorem C02_rename_table (S : Scheme) (hS : S.Valid) (D : Dataset) (f : Elem → Elem) (hf : Function.Injective f) :
+    costMatrix S (getPositions (D.map fun r => r.map fun b => b.map f)) = costMatrix S (getPositions D) := by
+  rw [C02_def S hS D, C02_def S hS _]
+  unfold Spec.specTable
+  rw [Invariance.univOf_rename hf, List.map_map]
+  apply List.map_congr_left
+  intro x _
+  simp only [Function.comp, List.map_map]
+  apply List.map_congr_left
+  intro y _
+  simp only [Function.comp, hf.eq_iff, C13_before_rename hf, C13_after_rename hf, C02_tied_rename hf]
+
+end Corankco
